@@ -586,8 +586,8 @@ def check_object(schema, ci, m, b=None, depth=0):
     out = []
     try:
         b = bytes(m) if b is None else b
-    except Exception:  # noqa  (unencodable values are C01's concern; histories here use in-range values)
-        return [("unencodable", "bytes(m) raises")]
+    except Exception as e:  # noqa  (histories here use in-range values only)
+        return [(None, f"bytes() of a {c.name} raises {type(e).__name__}")]
     try:
         recs = wiregen.read_records(b)
     except wiregen.WireError as e:
@@ -939,8 +939,18 @@ def run(ctx):
         H = {k: v for k, v in H.items() if not k.startswith("_")}
         ctx.fail("oracle", what, cls=cls, input={"history": H, "cell": cell, **kw})
 
+    known_cls = {k["cls"] for k in lib.load_known(ctx.pid) if k["status"] == "open"}
+
+    def broken():
+        """enough concrete violations are already recorded: stop generating (a badly broken tree can make every
+        bytes() call recurse to the interpreter limit, and the replay needs only the first failing inputs)"""
+        return sum(1 for f in ctx.failures if f.get("cls") not in known_cls) >= 40
+
     def do_history(si, H, cell=None):
         """run, compare with the model, apply the oracle; returns the Ran"""
+        if broken():
+            ctx.count("skipped_after_many_failures")
+            return None
         schema = schemas[si]
         H["_si"] = si
         ci = H["class"]
@@ -967,8 +977,9 @@ def run(ctx):
         # ---- the emission clauses on the final object
         try:
             b = bytes(m)
-        except Exception as e:  # noqa
+        except Exception as e:  # noqa  (every generated value is in range: bytes() has no reason to raise)
             ctx.count("unencodable")
+            fail_oracle(f"bytes(m) raises {type(e).__name__}: {str(e)[:200]}", H, cell)
             return r
         if b:
             ctx.seen_nontrivial((si, ci, json.dumps({k: v for k, v in H.items() if not k.startswith("_")}, sort_keys=True, default=repr)))
@@ -1056,6 +1067,8 @@ def run(ctx):
     # ------------------------------------------------------------------ random combinations
     nrand = 500 if not ctx.thorough else 6000
     for k in range(nrand):
+        if broken():
+            break
         si = 0 if rng.random() < 0.5 else rng.randrange(len(schemas))
         try:
             H = random_history(schemas[si], srefs[si], rng)
@@ -1068,6 +1081,8 @@ def run(ctx):
     nstream = 500 if not ctx.thorough else 6000
     spec_pairs = []
     for k in range(nstream):
+        if broken():
+            break
         si = 0 if rng.random() < 0.5 else rng.randrange(len(schemas))
         s = schemas[si]
         ci = rng.randrange(len(s.classes))
